@@ -354,6 +354,22 @@ func runC08(r *Run) {
 		var buf bytes.Buffer
 		err := t.Render(context.Background(), &buf)
 		obs = append(obs, c08Project(buf.String(), err))
+		// ... and once more from the same parent, with every name assigned after the load: the page was rendered before on
+		// this engine (whatever the engine remembers of it), and its front matter still outranks the assignments
+		ops = append(ops, c08Op{kind: "load", i: 0, file: "page1.vuego"})
+		t2 := tpls[0].Load("page1.vuego")
+		tpls = append(tpls, t2)
+		obs = append(obs, L())
+		for _, k := range []string{"a", "b", "c", "d"} {
+			v := valOf("late", k)
+			ops = append(ops, c08Op{kind: "assign", i: len(tpls) - 1, key: k, val: v})
+			t2.Assign(k, v.Go())
+			obs = append(obs, L())
+		}
+		ops = append(ops, c08Op{kind: "render", i: len(tpls) - 1})
+		var buf2 bytes.Buffer
+		err2 := t2.Render(context.Background(), &buf2)
+		obs = append(obs, c08Project(buf2.String(), err2))
 		// direct oracle on a canonical history: NewFS.Fill(map).Assign*.Load(page1).Assign*.Render must follow the fixed order
 		{
 			fill := subset("ofill", []string{"a", "b", "c"})
